@@ -268,7 +268,7 @@ func drawOp(t *rapid.T, kind string, e genEnv) Op {
 		op.A = rapid.IntRange(0, e.nAcct+1).Draw(t, "acct")
 		drawSecret(t, &op, e, poolCnf)
 	case "reconfirm", "lock", "unlock":
-		op.A = rapid.IntRange(0, e.nAcct-1).Draw(t, "acct")
+		op.A = rapid.IntRange(0, e.nAcct+1).Draw(t, "acct")
 	case "recstart":
 		op.A = drawTarget(t, e)
 	case "recend":
@@ -386,15 +386,24 @@ func genOps(t *rapid.T, p profile, e genEnv) []Op {
 			kinds = append(kinds, k.k)
 		}
 	}
-	n := rapid.IntRange(p.minOps, p.maxOps).Draw(t, "nops")
-	ops := make([]Op, 0, n)
-	for len(ops) < n {
+	// The list is a rapid slice of "chunks" (one op, or one flow snippet) so the
+	// shrinker can delete from the middle; the drawn lower bound keeps typical
+	// histories long while still letting a failure shrink to a handful of ops.
+	lo := rapid.IntRange(0, p.minOps).Draw(t, "minchunks")
+	chunk := rapid.Custom(func(t *rapid.T) []Op {
 		k := rapid.SampledFrom(kinds).Draw(t, "kind")
 		if len(k) > 5 && k[:5] == "snip:" {
-			ops = append(ops, drawSnippet(t, k[5:], e)...)
-			continue
+			return drawSnippet(t, k[5:], e)
 		}
-		ops = append(ops, drawOp(t, k, e))
+		return []Op{drawOp(t, k, e)}
+	})
+	chunks := rapid.SliceOfN(chunk, lo, p.maxOps).Draw(t, "ops")
+	var ops []Op
+	for _, c := range chunks {
+		ops = append(ops, c...)
+	}
+	if len(ops) > 2*p.maxOps {
+		ops = ops[:2*p.maxOps]
 	}
 	return ops
 }
@@ -512,6 +521,52 @@ func drawSnippet(t *rapid.T, name string, e genEnv) []Op {
 			if chance(t, "loginafter", 60) {
 				ops = append(ops, Op{K: "login", B: b, A: e.nAcct, Src: "pw", SA: e.nAcct})
 			}
+		}
+	case "oauthlock":
+		if !c.Has("oauth2") {
+			return nil
+		}
+		ops = append(ops, Op{K: "o2start", B: b, N: 0}, Op{K: "o2cb", B: b, N: 0, Src: "state", SA: b, S: "code-u1"})
+		if c.Has("lock") {
+			ops = append(ops, Op{K: pick(t, "lk", "lock", "lock", "lock", "unlock"), A: e.nAcct + rapid.IntRange(0, 1).Draw(t, "newacct")})
+		}
+		if chance(t, "logout", 50) {
+			ops = append(ops, Op{K: "newsess", B: b})
+		}
+		ops = append(ops, Op{K: "o2start", B: b, N: 0}, Op{K: "o2cb", B: b, N: 0, Src: "state", SA: b, S: "code-u1"}, Op{K: "visit", B: b, S: "/p/lock"})
+	case "lockprobe":
+		if !c.Has("auth") {
+			return nil
+		}
+		ops = append(ops, login)
+		if c.HasSetup("totp") {
+			ops = append(ops, Op{K: "totpvalidate", B: b, A: a, Src: "totp", SA: a})
+		}
+		if c.HasSetup("sms") {
+			ops = append(ops, Op{K: "smsvalidate", B: b, A: a, Src: "smssess"})
+		}
+		switch {
+		case c.Has("lock") && (!c.Has("confirm") || chance(t, "lockorconf", 50)):
+			ops = append(ops, Op{K: pick(t, "lk", "lock", "lock", "unlock"), A: a}, Op{K: "visit", B: b, S: "/p/lock"})
+			if chance(t, "expire", 30) {
+				ops = append(ops, Op{K: "advance", N: pick(t, "lgap", 20, 45, 700, 50000)}, Op{K: "visit", B: b, S: "/p/lock"})
+			}
+		case c.Has("confirm"):
+			if chance(t, "re", 70) {
+				ops = append(ops, Op{K: "reconfirm", A: a})
+			}
+			ops = append(ops, Op{K: "visit", B: b, S: "/p/confirm"})
+		}
+	case "lockmid2fa":
+		if !c.Has("auth") || !c.Has("lock") {
+			return nil
+		}
+		ops = append(ops, login, Op{K: "lock", A: a})
+		if c.HasSetup("totp") {
+			ops = append(ops, Op{K: "totpvalidate", B: b, A: a, Src: "totp", SA: a})
+		}
+		if c.HasSetup("sms") {
+			ops = append(ops, Op{K: "smsvalidate", B: b, A: a, Src: "smssess"})
 		}
 	case "enrol-totp":
 		if !c.HasSetup("totp") || !c.Has("auth") {
